@@ -147,7 +147,9 @@ pub fn fill_parity(num_vars: usize, table: &mut [u64]) {
 
 /// Fill with an equals-k function
 pub fn fill_equals(num_vars: usize, table: &mut [u64], k: usize) {
-    fill_symmetric(num_vars, table, 1 << k);
+    // No function has k inputs set when k does not even fit in the count mask
+    let count_values = if k < usize::BITS as usize { 1 << k } else { 0 };
+    fill_symmetric(num_vars, table, count_values);
 }
 
 /// Fill with a threshold function
